@@ -33,7 +33,9 @@ REQUIRED_BUILD = ["KV.C03ProbingBuild.insert_capacity_probingSize", "KV.C03Probi
                   "KV.C03ProbingBuild.insert_below_capacity", "KV.C03ProbingBuild.missing_context_format",
                   "KV.C03ProbingBuild.build_bigram", "KV.C03ProbingBuild.build_bigram_capacity",
                   "KV.C03ProbingBuild.probing_end_to_end_partial",
-                  "KV.C03ProbingBuild.probing_build_represents_closed", "KV.C03ProbingBuild.probing_end_to_end_closed"]
+                  "KV.C03ProbingBuild.probing_build_represents_closed", "KV.C03ProbingBuild.probing_end_to_end_closed",
+                  "KV.C03ProbingBuild.demoClosed_ok", "KV.C03ProbingBuild.blank_invariant_closed_line",
+                  "KV.C03ProbingBuild.probing_blank1_step_partial"]
 
 KEY_QUANT = "quant-distinct-values-but-count-exceeds-bins"
 KEY_BB1 = "quant-backoff-bits-1-overflow"
